@@ -398,6 +398,10 @@ static double pickWeight(Rng &r)
     if (x < 0.15) return 0.0;
     if (x < 0.40) return 1.0;
     if (x < 0.50) return r.coin() ? 1e-3 : 1e3;
+    // positive but far below machine epsilon (a weight is a weight: the component still separates states); kept <= 1e-18 so
+    // that its contribution stays below the comparison tolerance of the extent clause even for the 1e6-wide boxes (the
+    // library's extent leaves components with a weight below epsilon out)
+    if (x < 0.56) return r.logUni(1e-30, 1e-18);
     return r.logUni(1e-3, 1e3);
 }
 static ob::StateSpacePtr mkCompound(Rng &r, int depthLeft, Registry &reg, bool top)
@@ -414,7 +418,7 @@ static ob::StateSpacePtr mkCompound(Rng &r, int depthLeft, Registry &reg, bool t
         // down-casts every component with isCompound() to CompoundStateSpace, which a wrapper forwards (probe: C06 case 0)
         if (r.coin(0.12) && !k->isCompound()) k = std::make_shared<ob::WrapperStateSpace>(k);
         double w = pickWeight(r);
-        if (i == pos && w == 0.0) w = r.logUni(1e-3, 1e3);
+        if (i == pos && w < 1e-3) w = r.logUni(1e-3, 1e3);
         c->addSubspace(k, w);
     }
     if (r.coin(0.3)) c->lock();
@@ -1497,12 +1501,28 @@ namespace c06
         Node *n;
         int underWrapper;  // number of WrapperStateSpace nodes above the target
     };
-    static void collectTargets(Node &n, const Node *parent, int wrappers, std::vector<Target> &bounds, std::vector<Target> &weights)
+    static void collectTargets(Node &n, const Node *parent, int wrappers, std::vector<Target> &bounds, std::vector<Target> &weights,
+                               std::vector<Target> *dims = nullptr)
     {
         bool fixedChart = parent && (parent->kind == K_SPHERE || parent->kind == K_MOBIUS || parent->kind == K_KLEIN);
         if (!fixedChart && (n.kind == K_RV || (n.kind == K_TIME && n.bounded) || n.kind == K_DISC)) bounds.push_back({&n, wrappers});
         if (n.kind == K_COMPOUND || n.kind == K_SE2 || n.kind == K_SE3) weights.push_back({&n, wrappers});
-        for (auto &k : n.kids) collectTargets(*k, &n, wrappers + (n.kind == K_WRAPPER ? 1 : 0), bounds, weights);
+        // a RealVector space that is the root or a member of a generic compound / wrapper may grow a dimension (the typed
+        // compounds - SE(2), SE(3), Dubins ... - own the layout of their R^n part)
+        if (dims && n.kind == K_RV && (!parent || parent->kind == K_COMPOUND || parent->kind == K_WRAPPER)) dims->push_back({&n, wrappers});
+        for (auto &k : n.kids) collectTargets(*k, &n, wrappers + (n.kind == K_WRAPPER ? 1 : 0), bounds, weights, dims);
+    }
+    // addDimension() on a RealVector component after setup(); the new dimension is wider than anything the space had, so that the
+    // extent reported before it would be wrong now. The documentation asks for a second setup().
+    static std::string mutateDim(Rng &r, const Target &t)
+    {
+        Node &n = *t.n;
+        double wmax = 0;
+        for (size_t i = 0; i < n.lo.size(); ++i) wmax = std::max(wmax, n.hi[i] - n.lo[i]);
+        if (!(wmax > 0)) wmax = 1;
+        double width = std::min(1e7, wmax * r.uni(3, 10)), lo = -width * r.u01();
+        n.sp->as<ob::RealVectorStateSpace>()->addDimension(lo, lo + width);
+        return "RealVectorStateSpace::addDimension(" + fmtg(lo) + ", " + fmtg(lo + width) + ") on " + n.sig;
     }
     static void grow(Rng &r, double &lo, double &hi)
     {
@@ -1581,28 +1601,40 @@ namespace c06
         cnt.add("c06_distance_evaluations", ls.done * 30);
 
         // second phase: the same space after a re-parameterisation history
-        std::vector<Target> bt, wt;
-        collectTargets(*root, nullptr, 0, bt, wt);
+        std::vector<Target> bt, wt, dt;
+        collectTargets(*root, nullptr, 0, bt, wt, &dt);
         long hdone = 0;
         std::string hist;
         if (!bt.empty() || !wt.empty())
         {
             double extBefore = n.sp->getMaximumExtent();
             int nmut = rng.coin(0.3) ? 2 : 1;
-            bool underWrapper = false, didWeight = false, didBounds = false;
+            bool underWrapper = false, didWeight = false, didBounds = false, didDim = false;
             for (int m = 0; m < nmut; ++m)
             {
-                bool weight = bt.empty() || (!wt.empty() && rng.coin(0.35));
-                const Target &t = weight ? rng.pick(wt) : rng.pick(bt);
-                hist += (m ? "; " : "") + mutate(rng, t, weight);
-                underWrapper |= t.underWrapper > 0;
-                (weight ? didWeight : didBounds) = true;
+                if (!dt.empty() && rng.coin(0.25))
+                {
+                    const Target &t = rng.pick(dt);
+                    hist += (m ? "; " : "") + mutateDim(rng, t);
+                    underWrapper |= t.underWrapper > 0;
+                    didDim = true;
+                }
+                else
+                {
+                    bool weight = bt.empty() || (!wt.empty() && rng.coin(0.35));
+                    const Target &t = weight ? rng.pick(wt) : rng.pick(bt);
+                    hist += (m ? "; " : "") + mutate(rng, t, weight);
+                    underWrapper |= t.underWrapper > 0;
+                    (weight ? didWeight : didBounds) = true;
+                }
                 // the descriptor of the mutated node is refreshed below; a second mutation uses the fresh tree
                 root = describe(n.sp, zoo.reg);
-                bt.clear(), wt.clear();
-                collectTargets(*root, nullptr, 0, bt, wt);
+                bt.clear(), wt.clear(), dt.clear();
+                collectTargets(*root, nullptr, 0, bt, wt, &dt);
             }
-            bool resetup = rng.coin(0.35);
+            // a changed dimension needs the second setup() (documented); bounds / weights are live either way
+            bool resetup = didDim || rng.coin(0.35);
+            if (didDim) cnt.add("c06_history_cases_dimension_added");
             if (resetup)
             {
                 n.sp->setup();
